@@ -32,7 +32,7 @@ ASSUMPTIONS = [
 ]
 
 KEYS = ["a", "A", "b", "B", "layers", "Layers"]
-VALS = [1, "x", [1], {"k": 1}]
+VALS = [1, "x", [1], {"k": 1}, None, ["s", {"k": 1}, [1, 2]]]
 OLK = None
 
 
@@ -126,6 +126,23 @@ def canon(v):
     return (type(v).__name__, v)
 
 
+def mutable_ids(x, acc=None):
+    if acc is None:
+        acc = set()
+    if isinstance(x, dict):
+        acc.add(id(x))
+        for v in x.values():
+            mutable_ids(v, acc)
+    elif isinstance(x, (list, set)):
+        acc.add(id(x))
+        for v in x:
+            mutable_ids(v, acc)
+    elif isinstance(x, tuple):
+        for v in x:
+            mutable_ids(v, acc)
+    return acc
+
+
 def impl_state(d, CI):
     return (
         type(d) is CI,
@@ -209,18 +226,8 @@ def apply_impl(d, op, CI):
             facts.append("zzz" not in d)
             del c["zzz"]
             if name in ("deepcopy", "pickle"):
-                for k, v in c.items():
-                    if isinstance(v, list):
-                        v.append("mut")
-                    elif isinstance(v, dict):
-                        v["mut"] = 1
-                facts.append(impl_state(d, CI) == before)
-                # undo
-                for k, v in c.items():
-                    if isinstance(v, list):
-                        v.pop()
-                    elif isinstance(v, dict):
-                        del v["mut"]
+                # no mutable object reachable from the copy may be reachable from the original (at any depth)
+                facts.append(not (mutable_ids(d) & mutable_ids(c)))
             else:
                 # shallow copy shares values
                 facts.append(all(c[k] is d[k] for k in list(d.keys())))
